@@ -1,4 +1,213 @@
-//! C18 (b) — REPL sessions through the built binary (filled in once the reference evaluator exists).
-use crate::runner::Ctx;
+//! C18 (b) — REPL sessions through the built binary over a pipe, under several line splittings.
+use crate::ast::*;
+use crate::checks::c17::{run_binary, scratch, strip_ansi, strip_ticks};
+use crate::faults::{fault_form_with, prelude, CONTEXTS, KINDS};
+use crate::gen::{Gen, GenCfg};
+use crate::runner::{Chooser, Ctx, Report};
+use crate::sut::{self, Session};
 
-pub fn run(_ctx: &Ctx) {}
+pub struct SessionCase {
+    pub forms: Vec<Form>,
+    /// per splitting: per form: the lines submitted for it
+    pub splittings: Vec<Vec<Vec<String>>>,
+    pub has_fault: bool,
+    pub max_lines_after_fault: usize,
+}
+
+fn special_forms(ch: &mut Chooser) -> Form {
+    // strings, characters and |identifiers| containing parentheses and semicolons
+    let q = |d: Datum| Expr::Quote(d);
+    // forms whose value is unspecified (nothing is printed), and a stray closing parenthesis (opens nothing:
+    // submitted at once, reported as an error, and the session goes on)
+    match ch.below(12) {
+        6 => return Form::Expr(Expr::Set("wn".into(), Box::new(Expr::Int(5)))),
+        7 => return Form::Expr(app("vector-set!", vec![var("wv"), Expr::Int(1), Expr::Quote(Datum::Sym("x".into()))])),
+        8 => return Form::Expr(Expr::If(Box::new(Expr::Bool(false)), Box::new(Expr::Bool(false)), None)),
+        9 => return Form::Expr(app("for-each", vec![var("car"), Expr::Quote(Datum::List(vec![], None))])),
+        10 => return Form::Raw(")".into()),
+        11 => return Form::Raw("(car '(1 2)))".into()),
+        _ => {}
+    }
+    Form::Expr(match ch.below(6) {
+        0 => app("list", vec![Expr::Str("(".into()), Expr::Str(")".into()), Expr::Int(1)]),
+        1 => app("list", vec![Expr::Char('('), Expr::Char(')'), Expr::Char(';')]),
+        2 => app("list", vec![Expr::Str("a;b".into()), Expr::Str("x ; y (".into())]),
+        3 => q(Datum::List(vec![Datum::Sym("|(|".into()), Datum::Sym("|a;b|".into()), Datum::Int(2)], None)),
+        4 => Expr::Str("\")(\"".into()),
+        _ => app("cons", vec![Expr::Str("((".into()), q(Datum::List(vec![], None))]),
+    })
+}
+
+/// lines for one form: breaks only between tokens that are inside a list (depth >= 1)
+fn split_form(ch: &mut Chooser, f: &Form, mode: usize) -> Vec<String> {
+    let toks = form_tokens(f);
+    if mode == 0 {
+        return vec![join(&toks)];
+    }
+    let mut lines: Vec<String> = vec![];
+    let mut cur: Vec<Tok> = vec![];
+    let mut depth = 0i32;
+    for (i, t) in toks.iter().enumerate() {
+        cur.push(t.clone());
+        if t.text == "(" || t.text == "#(" {
+            depth += 1;
+        } else if t.text == ")" {
+            depth -= 1;
+        }
+        let last = i + 1 == toks.len();
+        // never break right after a quote mark (the datum must follow it in the same token run)
+        let can_break = depth >= 1 && !last && t.text != "'";
+        let want = match mode {
+            1 => ch.chance(1, 3),
+            2 => true,
+            _ => ch.chance(1, 3),
+        };
+        if can_break && want {
+            let mut line = join(&cur);
+            if mode == 3 && ch.chance(1, 2) {
+                line.push_str(" ; comment ) (");
+            }
+            if mode == 1 && ch.chance(1, 4) {
+                line = format!("   {}", line);
+            }
+            lines.push(line);
+            cur.clear();
+        }
+    }
+    if !cur.is_empty() {
+        lines.push(join(&cur));
+    }
+    lines
+}
+
+pub fn gen_session(ch: &mut Chooser) -> SessionCase {
+    let mut forms = strip_ticks(&prelude());
+    let mut cfg = if ch.chance(1, 2) { GenCfg::core(2) } else { GenCfg::derived(2) };
+    cfg.ticks = false;
+    cfg.avoid.template_capture = true;
+    cfg.printable_exprs = true;
+    cfg.max_forms = 6;
+    let valid = {
+        let mut g = Gen::new(ch, cfg);
+        g.gen_program()
+    };
+    let mut body = valid;
+    for _ in 0..1 + ch.below(4) {
+        let pos = ch.below(body.len() + 1);
+        body.insert(pos, special_forms(ch));
+    }
+    let mut has_fault = false;
+    let mut fault_pos = None;
+    if ch.chance(3, 5) {
+        let kind = *ch.pick(&KINDS);
+        let context = *ch.pick(&CONTEXTS);
+        let derived = ch.chance(1, 2);
+        let ff = fault_form_with(ch, kind, context, derived);
+        let pos = ch.below(body.len() + 1);
+        body.insert(pos, strip_ticks(&[ff.form])[0].clone());
+        has_fault = true;
+        fault_pos = Some(forms.len() + pos);
+    }
+    forms.extend(body);
+    // something observable after everything else: definitions survive errors
+    forms.push(Form::Expr(app("list", vec![var("wn"), var("five"), app("two", vec![Expr::Int(1), Expr::Int(2)])])));
+    let mut splittings = vec![];
+    let mut max_lines_after_fault = 0;
+    for mode in 0..4 {
+        let per_form: Vec<Vec<String>> = forms.iter().map(|f| split_form(ch, f, mode)).collect();
+        if let Some(fp) = fault_pos {
+            for lines in per_form.iter().skip(fp + 1) {
+                max_lines_after_fault = max_lines_after_fault.max(lines.len());
+            }
+        }
+        splittings.push(per_form);
+    }
+    SessionCase { forms, splittings, has_fault, max_lines_after_fault }
+}
+
+fn banner() -> String {
+    // CARGO_PKG_VERSION of the repository
+    let toml = std::fs::read_to_string("/repo/Cargo.toml").unwrap_or_default();
+    let v = toml.lines().find(|l| l.starts_with("version")).and_then(|l| l.split('"').nth(1)).unwrap_or("?").to_string();
+    format!("Ruschm Version {}", v)
+}
+
+pub fn judge(c: &SessionCase) -> Report {
+    let one_line: Vec<String> = c.forms.iter().map(render_form).collect();
+    let mut rep = Report::new(one_line.join("\n"));
+    rep.label(if c.has_fault { "with-fault" } else { "no-fault" });
+    rep.nontrivial = c.has_fault && c.max_lines_after_fault >= 3;
+    // in-process reference: the same forms one after another on one interpreter
+    let texts = one_line.clone();
+    let reference: Vec<Result<Option<String>, String>> = sut::in_thread(move || {
+        let mut s = Session::stdlib().unwrap();
+        texts.iter().map(|t| s.eval_display(t)).collect()
+    });
+    let mut exp_out = vec![banner()];
+    let mut exp_err = vec![];
+    for r in &reference {
+        match r {
+            Ok(Some(v)) => exp_out.push(v.clone()),
+            Ok(None) => {}
+            Err(e) => exp_err.push(e.clone()),
+        }
+    }
+    exp_out.push("exited. have a nice day.".to_string());
+    let dir = scratch("c18");
+    let mut first: Option<(Vec<String>, Vec<String>)> = None;
+    for (si, split) in c.splittings.iter().enumerate() {
+        let mut input = String::new();
+        for lines in split {
+            for l in lines {
+                input.push_str(l);
+                input.push('\n');
+            }
+        }
+        let r = run_binary(&[], &dir, Some(&input));
+        let out: Vec<String> = r.stdout.lines().map(|l| l.to_string()).collect();
+        let err: Vec<String> = strip_ansi(&r.stderr).lines().filter(|l| !l.trim().is_empty()).map(|l| l.to_string()).collect();
+        if si == 0 {
+            rep.note = format!("stdout {:?} stderr {:?}", out, err);
+            if rep.note.len() > 700 {
+                rep.note.truncate(700);
+            }
+        }
+        if err.iter().any(|l| l.contains("panicked at")) {
+            rep.fail("repl-panicked", format!("splitting {}: {:?}", si, err));
+            break;
+        }
+        if out != exp_out {
+            rep.fail(
+                if si == 0 { "transcript-differs-from-in-process-evaluation" } else { "transcript-depends-on-line-splitting" },
+                format!("splitting {} (input {:?}): expected stdout {:?}, got {:?}", si, input, exp_out, out),
+            );
+            break;
+        }
+        if err != exp_err {
+            rep.fail(
+                if si == 0 { "error-messages-differ-from-in-process-evaluation" } else { "error-messages-depend-on-line-splitting" },
+                format!("splitting {}: expected stderr {:?}, got {:?}", si, exp_err, err),
+            );
+            break;
+        }
+        match &first {
+            None => first = Some((out, err)),
+            Some((o0, e0)) => {
+                if *o0 != out || *e0 != err {
+                    rep.fail("transcript-depends-on-line-splitting", format!("splitting {} differs from splitting 0", si));
+                    break;
+                }
+            }
+        }
+    }
+    let _ = std::fs::remove_dir_all(&dir);
+    rep
+}
+
+pub fn run(ctx: &Ctx) {
+    if ctx.skip_sub("sessions") {
+        return;
+    }
+    let cases = ctx.tier.pick(200, 3_000);
+    ctx.random("sessions", cases, 500, |ch| judge(&gen_session(ch)));
+}
